@@ -213,7 +213,7 @@ def armsZE (tbl : Table) (ok : String → Bool) : Expr → Bool
   | .letTup _ a b => armsZE tbl ok a && armsZE tbl ok b
   | .assign _ a b => armsZE tbl ok a && armsZE tbl ok b
   | .ite c a b =>
-    armsZE tbl ok c && armsZE tbl ok a && armsZE tbl ok b && isStateless (pubE tbl a) && isStateless (pubE tbl b)
+    armsZE tbl ok c && armsZE tbl ok a && isStateless (pubE tbl a) && isStateless (pubE tbl b)
   | .tup es => armsZL tbl ok es
   | .app f args => armsZE tbl ok f && armsZL tbl ok args
   | .mem a _ => armsZE tbl ok a
